@@ -632,5 +632,7 @@ func decPrim(c *Ctx, p primInst, wantNoPanic, wantAlloc bool) {
 		c.res.Dis++
 		c.checkAllocs(fs, p.Name, t.S.Len, wantAlloc, wantNoPanic, replay)
 	}
-	c.Witness(s, "arbitrary input", func(val func(*Term) uint64) any { return map[string]any{"fn": p.Name, "input_hex": hexOf(evalBytes(t.S, val))} })
+	c.Witness(s, "arbitrary input", func(val func(*Term) uint64) any {
+		return map[string]any{"fn": p.Name, "input_hex": hexOf(evalBytes(t.S, val))}
+	})
 }
